@@ -327,6 +327,9 @@ def numeric_constant(ctx, exe, tmp, n_cases, fails):
             mx = max(r, .5)                       # at the declared maximum
         else:
             mx = min(64.0, max(r, .5) * 2.0 ** ctx.rng.uniform(0, 3))
+        if i < len(TOUR_MAXIMA):                  # every class of declared maximum, at ratios on both sides of 1.0
+            mx = TOUR_MAXIMA[i]
+            r = mx * 2.0 ** -ctx.rng.uniform(0, 2.5) if i % 2 else min(mx, 2.0 ** ctx.rng.uniform(-1.5, 0))
         r = min(r, mx)
         cases.append((i, mx, r, ctx.rng.uniform(.05, .6), [100, 257, 1000, 4096][ctx.rng.below(4)]))
     with ThreadPoolExecutor(common.NCPU) as ex:
@@ -335,6 +338,7 @@ def numeric_constant(ctx, exe, tmp, n_cases, fails):
     for c in res:
         ctx.count("evaluations")
         ctx.hist("constant_ratio_octave", int(math.floor(math.log2(c["r"]))))
+        ctx.hist("constant_ratio_declared_maximum", "<=1" if c["mx"] <= 1 else "(1,2]" if c["mx"] <= 2 else "(2,4]" if c["mx"] <= 4 else ">4")
         if c["rc"] or not c["drained"]:
             fails.append(dict(kind="constant:run", what="run failed or did not drain: rc=%d %s" % (c["rc"], c["err"]), ops=c["ops"]))
             continue
@@ -400,7 +404,7 @@ def boundaries(ops, real_res):
     return out
 
 
-def tour_case(exe, tmp, idx, seed):
+def tour_case(exe, tmp, idx, seed, mx=None):
     """One octave tour on the real code, four probes over the same calls:
       ramp x[n] = n/scale          reads back the engine's read position (input time) directly — but every -80 dB artefact
                                    of the kernels is multiplied by the position, so its tolerance grows with the position;
@@ -408,7 +412,8 @@ def tour_case(exe, tmp, idx, seed):
                                    time base (instantaneous ratio = phase advance per output frame / w);
       slow sine                    amplitude continuity (second difference)."""
     rng = common.Rng(seed)
-    mx = [2.0, 4.0, 8.0, 16.0, 32.0, 64.0][rng.below(6)] * (1.0 if rng.chance(.5) else rng.uniform(.6, 1.0))
+    mx_drawn = [2.0, 4.0, 8.0, 16.0, 32.0, 64.0][rng.below(6)] * (1.0 if rng.chance(.5) else rng.uniform(.6, 1.0))
+    mx = mx if mx is not None else mx_drawn
     reqs = octave_tour(rng, mx)
     ops, marks, total = tour_ops(rng, mx, reqs, "random" if rng.chance(.7) else "fixed")
     r_max = max(r for r, _, _ in reqs)
@@ -529,10 +534,20 @@ def tour_case(exe, tmp, idx, seed):
     return out
 
 
+# Declared maxima every run covers, whatever the seed: each class of num_stages0 (0: max <= 1; 1: (1, 2], where num_stages0 !=
+# num_stages - 1 is still 0 but the engine can down-sample; 2: (2, 4]; ...) with a maximum inside the class and one exactly at its
+# upper edge.  A tour visits every octave boundary the engine has, both ways - in particular ratio 1.0 (stage -1 <-> stage 0),
+# which exists as soon as the maximum exceeds 1.
+TOUR_MAXIMA = [1.5, 2.0, 3.0, 1.0, 4.0, 1.25, 8.0, 0.75, 6.0, 64.0, 16.0, 2.5]
+
+
 def numeric_tours(ctx, exe, tmp, n, fails):
     seeds = [ctx.rng.next() for _ in range(n)]
+    maxima = [TOUR_MAXIMA[i] if i < len(TOUR_MAXIMA) else None for i in range(n)]      # beyond the list: drawn by the tour itself
     with ThreadPoolExecutor(common.NCPU) as ex:
-        res = list(ex.map(lambda a: tour_case(exe, tmp, a[0], a[1]), enumerate(seeds)))
+        res = list(ex.map(lambda a: tour_case(exe, tmp, a[0], a[1][0], a[1][1]), enumerate(zip(seeds, maxima))))
+    for r in res:
+        ctx.hist("tour_declared_maximum", "<=1" if r["mx"] <= 1 else "(1,2]" if r["mx"] <= 2 else "(2,4]" if r["mx"] <= 4 else ">4")
     for r in res:
         ctx.count("evaluations", r["marks"])
         ctx.count("tour_requests", r["marks"])
